@@ -15,7 +15,7 @@ import (
 func init() {
 	register(&Prop{
 		ID:          "C04",
-		Explanation: "Decides that sessions are built from claims only behind token verification: idTokenVerifier.Verify returns a token only when go-oidc's Verify returned it without error and verifyAudience's verdict was true; verifyAudience/isValidAudience are true only on a membership hit of a token audience in allowedAudiences, whose only writer is NewVerifier (keys: ClientID, ExtraAudiences); every oidc.Config literal leaves expiry and signature checks on and takes SkipIssuerCheck from SkipIssuerVerification alone (SkipClientIDCheck:true is accepted because the own audience check is proven); createSession / CreateSessionFromToken / the bearer closure build a session from the raw token only on paths where that same token passed Verify (sole exception: refresh with ErrMissingIDToken, where the token string is empty); the email_verified gate guards every success return of the two claim readers; the bearer loader list holds only provider.CreateSessionFromToken and CreateTokenToSessionFunc(verifier.Verify); every override of CreateSessionFromToken/RefreshSession/Redeem on an OIDC-embedding provider succeeds only after the embedded implementation succeeded; the claim extractor's token document is set once and never mutated, and GetClaim returns a profile-endpoint value only after the token lookup for that claim returned nothing. Added during the build: buildSessionFromClaims reads a claim from the verified token's claims before any profile-URL fallback (R7). Every go-oidc Claims() target is a variable of the calling invocation, so claims absent from one token cannot be inherited from another (R8). Round 3: every write of ProviderVerifierOptions.SkipIssuerVerification is the operator's option or constant false (under R2). Round 4: each insecure OIDC toggle is converted from the legacy flag of the same meaning (R9); every verifier is built from an options value of its own (R10); verifyAudience consults at most one audience claim found in the token — the first configured one present decides (under R1). Round 6: the configured provider's own CreateSessionFromToken (which applies the operator's claim mapping) is one of the bearer loaders (under R5). Round 7: request handling keeps no state of its own between requests — no store, map update, in-place builtin, atomic/sync.Map write or pointer-receiver library call (singleflight, caches) reached from ServeHTTP targets a package-level variable, an object built at start-up, or a constructor variable captured by the handler it returned, declared in the packages implementing this property (RS; a class-wide who-may-write rule with zero instances today: a correct memoisation would be reported until reviewed). A RefreshSession override that delegates to the generic refresh only extends the groups the refreshed token produced (R11); refresh adopts the token's identity claims with the token (R12, shared with C12.R9; generic OIDC path only — the legacy Azure provider keeps Graph groups by design and stays an unclaimed site). Round 8: the legacy Azure provider's verifySessionToken answers nil only without a verifier or after a Verify call of the path succeeded (R13; which token's claims are then read remains the unclaimed site). Round 8 (class-wide, P12): in the packages implementing this property every named error result that is used at all is examined — compared with nil, returned, stored or handed to a non-formatting function — unless the code validates the value result instead (RE; zero instances today).",
+		Explanation: "Decides that sessions are built from claims only behind token verification: idTokenVerifier.Verify returns a token only when go-oidc's Verify returned it without error and verifyAudience's verdict was true; verifyAudience/isValidAudience are true only on a membership hit of a token audience in allowedAudiences, whose only writer is NewVerifier (keys: ClientID, ExtraAudiences); every oidc.Config literal leaves expiry and signature checks on and takes SkipIssuerCheck from SkipIssuerVerification alone (SkipClientIDCheck:true is accepted because the own audience check is proven); createSession / CreateSessionFromToken / the bearer closure build a session from the raw token only on paths where that same token passed Verify (sole exception: refresh with ErrMissingIDToken, where the token string is empty); the email_verified gate guards every success return of the two claim readers; the bearer loader list holds only provider.CreateSessionFromToken and CreateTokenToSessionFunc(verifier.Verify); every override of CreateSessionFromToken/RefreshSession/Redeem on an OIDC-embedding provider succeeds only after the embedded implementation succeeded; the claim extractor's token document is set once and never mutated, and GetClaim returns a profile-endpoint value only after the token lookup for that claim returned nothing. Added during the build: buildSessionFromClaims reads a claim from the verified token's claims before any profile-URL fallback (R7). Every go-oidc Claims() target is a variable of the calling invocation, so claims absent from one token cannot be inherited from another (R8). Round 3: every write of ProviderVerifierOptions.SkipIssuerVerification is the operator's option or constant false (under R2). Round 4: each insecure OIDC toggle is converted from the legacy flag of the same meaning (R9); every verifier is built from an options value of its own (R10); verifyAudience consults at most one audience claim found in the token — the first configured one present decides (under R1). Round 6: the configured provider's own CreateSessionFromToken (which applies the operator's claim mapping) is one of the bearer loaders (under R5). Round 7: request handling keeps no state of its own between requests — no store, map update, in-place builtin, atomic/sync.Map write or pointer-receiver library call (singleflight, caches) reached from ServeHTTP targets a package-level variable, an object built at start-up, or a constructor variable captured by the handler it returned, declared in the packages implementing this property (RS; a class-wide who-may-write rule with zero instances today: a correct memoisation would be reported until reviewed). A RefreshSession override that delegates to the generic refresh only extends the groups the refreshed token produced (R11); refresh adopts the token's identity claims with the token (R12, shared with C12.R9; generic OIDC path only — the legacy Azure provider keeps Graph groups by design and stays an unclaimed site). Round 8: the legacy Azure provider's verifySessionToken answers nil only without a verifier or after a Verify call of the path succeeded (R13; which token's claims are then read remains the unclaimed site). Round 8 (class-wide, P12): in the packages implementing this property every named error result that is used at all is examined — compared with nil, returned, stored or handed to a non-formatting function — unless the code validates the value result instead (RE; zero instances today). Round 9: login.gov's checkNonce answers nil only after jwt.ParseWithClaims returned no error (R14).",
 		NotDecided:  "claim-value equality between token and session fields; go-oidc's signature/issuer/expiry code (trusted when not told to skip); the legacy Azure provider's extractClaimsIntoSession (verifies either token, reads the ID token's claims) is listed as an unclaimed site.",
 		Run:         runC04,
 	})
@@ -38,6 +38,8 @@ func runC04(c *Ctx) {
 	runC12R9(c, "R12-refresh-adopts-identity")
 	r.Rule("R13-azure-verify-nil-only-verified", "the legacy Azure provider's verifySessionToken answers nil only without a verifier or after a Verify call of the path succeeded (round 8)", 1)
 	runAzureVerifyNilOnlyVerified(c, "R13-azure-verify-nil-only-verified")
+	r.Rule("R14-logingov-verify-nil-only-parsed", "login.gov's checkNonce answers nil only after jwt.ParseWithClaims returned no error: no error class (expired, not yet valid) is tolerated (round 9)", 1)
+	runLoginGovVerifyNilOnlyParsed(c, "R14-logingov-verify-nil-only-parsed")
 	r.Rule("R9-legacy-toggle-table", "each insecure OIDC toggle is converted from the legacy flag of the same meaning", 4)
 	r.Rule("R10-verifier-options-per-issuer", "every verifier is built from an options value of its own (no options object shared between issuers)", 2)
 	r.Rule("R8-claims-target-fresh", "every go-oidc Claims() target is a variable allocated in the calling invocation", 3)
